@@ -5,18 +5,23 @@
      generate_func_head (121-182)       -> `head_args`     (np.unique + first-index sort = order-preserving dedupe;
                                                            declared parameters first, return variable pinned in front)
      _generate_auto_files (444-687)     -> `auto_order`, `emit` (parnames, STPNT, forwarding call, DFDP columns, NDIM/NPAR)
-     _auto_param_indices (998-1009)     -> NOT modelled by hand: `emit` calls the definition that py2v.py regenerates
-                                           from the current source (Gen_auto_param_indices) with the current
-                                           _AUTO_BLOCKED_PAR_RANGE
+     _auto_param_indices (998-1009)     -> NOT modelled by hand: `emit_with` takes it as an argument and AutoImpl.emit
+                                           instantiates it with the definition that py2v.py regenerates from the
+                                           current source (Gen_auto_param_indices) and the current _AUTO_BLOCKED_PAR_RANGE
+                                           (this file does not depend on coq/gen, so the Spec stays available when the
+                                           translation fails closed)
      _build_auto_constants_file (1011-) -> `consts_of` (NDIM/NPAR, then user overrides win)
    Spec is the property as the user reads it: one slot per parameter, `slot (position in declaration order)`,
    and every view (signature, call, STPNT, parnames, DFDP column) is a map over the declared parameters with
    that one slot function. *)
 From Coq Require Import ZArith List Bool String QArith Qcanon.
-From PV Require Import PyLib AutoEquiv.
-From PVG Require Import Gen_auto_param_indices.
+From PV Require Import PyLib.
 Import ListNotations.
 Open Scope Z_scope.
+
+(* closed form of the slot function: 0-based position i among the parameters -> 1-based PAR slot *)
+Definition slot (i : Z) : Z := if i <? 9 then i + 1 else i + 6.
+Definition slots (n : nat) : list Z := map (fun k => slot (Z.of_nat k)) (seq 0 n).
 
 Definition mem (x : string) (l : list string) : bool := py_in_str x l.
 
@@ -86,11 +91,11 @@ Record model := {
 Definition max_list (l : list Z) : Z := fold_right Z.max 0 l.
 Definition number_from_1 (l : list string) : list (Z * string) := map (fun p => (fst p + 1, snd p)) (py_enumerate l).
 
-Definition emit (m : model) : emission :=
+Definition emit_with (param_indices : list string -> list Z) (m : model) : emission :=
   let decl := register (register [] (m_events m)) (m_args m) in
   let sig := "t"%string :: "y"%string :: head_args decl (m_ret m) (m_args m) in
   let fargs := auto_order decl (skipn 3 sig) in
-  let idx := auto_param_indices fargs AUTO_BLOCKED_PAR_RANGE in
+  let idx := param_indices fargs in
   let rhs_idx := firstn (List.length fargs) idx in
   let name_to_idx := combine fargs idx in
   {| e_sig := sig;
